@@ -95,7 +95,7 @@ Fixpoint run_trace (catches : bool) (dirsize : Z) (s : cache cont) (ops : list (
   match ops with
   | [] => []
   | o :: r =>
-      let '(s1, x) := kvs_step cont k_len k_mem dirsize ufm_oversize_uncached ufm_uncached_purges catches s o in
+      let '(s1, x) := kvs_step cont k_len k_mem dirsize ufm_oversize_uncached ufm_uncached_purges task_failure_forgets catches s o in
       SL [sx_res x; sx_state s1] :: run_trace catches dirsize s1 r
   end.
 
@@ -127,7 +127,7 @@ Fixpoint run_tbl (dirsize : Z) (s : tcache) (ops : list sx) : list sx :=
       match sx_get_zs n, rows_of_sx rows with
       | Some n', Some f =>
           if is_tag "set" t then
-            let '(s1, x) := tbl_set flen fmem dirsize ufm_oversize_uncached ufm_uncached_purges s n' f t1 t2 [] [] in sx_tres x :: run_tbl dirsize s1 r
+            let '(s1, x) := tbl_set flen fmem dirsize ufm_oversize_uncached ufm_uncached_purges task_failure_forgets s n' f t1 t2 [] [] in sx_tres x :: run_tbl dirsize s1 r
           else [sx_err "tbl-op"]
       | _, _ => [sx_err "tbl-set"]
       end
@@ -135,7 +135,7 @@ Fixpoint run_tbl (dirsize : Z) (s : tcache) (ops : list sx) : list sx :=
       match sx_get_zs n with
       | Some n' =>
           if is_tag "get" t then
-            let '(s1, x) := tbl_get flen fmem dirsize ufm_oversize_uncached ufm_uncached_purges s n' t1 [] in sx_tres x :: run_tbl dirsize s1 r
+            let '(s1, x) := tbl_get flen fmem dirsize ufm_oversize_uncached ufm_uncached_purges task_failure_forgets s n' t1 [] in sx_tres x :: run_tbl dirsize s1 r
           else [sx_err "tbl-op"]
       | None => [sx_err "tbl-get"]
       end
